@@ -12,6 +12,7 @@ import os
 import random
 import re
 import subprocess
+import threading
 import time
 from concurrent.futures import ThreadPoolExecutor
 
@@ -153,7 +154,8 @@ def generate(work, tier, seed):
             for i, (nsrc, n, faults) in enumerate(p["exh"]):
                 jobs[(kind, i)] = ex.submit(gen, kind, i, {"VERIF_GEN_NSRC": nsrc, "VERIF_GEN_N": n,
                                                            "VERIF_GEN_FAULTS": faults, "VERIF_GEN_RANDOM": 0,
-                                                           "VERIF_GEN_RECOVER": 1 if i == 0 else 0})
+                                                           "VERIF_GEN_RECOVER": 1 if i == 0 else 0,
+                                                           "VERIF_GEN_MULTI": 1 if i == 0 else 0})
             cnt, ln, rs = p["rand"]
             jobs[(kind, 99)] = ex.submit(gen, kind, 99, {"VERIF_GEN_NSRC": 1, "VERIF_GEN_N": 0,
                                                          "VERIF_GEN_RANDOM": cnt, "VERIF_GEN_RANDLEN": ln,
@@ -190,7 +192,15 @@ def generate(work, tier, seed):
     return cases
 
 
+_ov_lock = threading.Lock()
+
+
 def overlay_file(work):
+    with _ov_lock:
+        return _overlay_file(work)
+
+
+def _overlay_file(work):
     ov = work.path("overlay_c18.json")
     if not os.path.exists(ov):
         rep = {os.path.join(verif.REPO, "internal/x/verifc18/common.go"):
@@ -200,7 +210,9 @@ def overlay_file(work):
         for src in rep.values():
             if not os.path.exists(src):
                 raise Infra("overlay source missing: " + src)
-        json.dump({"Replace": rep}, open(ov, "w"))
+        with open(ov + ".tmp", "w") as f:
+            json.dump({"Replace": rep}, f)
+        os.replace(ov + ".tmp", ov)
     return ov
 
 
